@@ -247,7 +247,70 @@ func validateResponseExits(c *core.Ctx) {
 					return
 				}
 			}
-			probs = append(probs, "the error exit at "+at+" ("+types.ExprString(res)+") rejects the response for a reason that is neither its HTTP status, an unknown encoding nor an error the peer sent")
+			// the failure to read the body, where that failure is the call's context ending: the decoder's
+			// own error under a test of its code against canceled / deadline_exceeded, or what
+			// wrapIfContextError made of it
+			if obj := astx.ObjOf(info, res); obj != nil {
+				decodeErr := map[types.Object]bool{}
+				ctxOf := map[types.Object]bool{}
+				for _, st := range s.Steps {
+					ast.Inspect(st, func(x ast.Node) bool {
+						as, ok := x.(*ast.AssignStmt)
+						if !ok || len(as.Rhs) != 1 {
+							return true
+						}
+						call, ok := astx.Unparen(as.Rhs[0]).(*ast.CallExpr)
+						if !ok {
+							return true
+						}
+						f := astx.CalleeFunc(info, call)
+						if f == nil {
+							return true
+						}
+						switch f.Name() {
+						case "UnmarshalFunc", "Unmarshal":
+							if o := astx.ObjOf(info, as.Lhs[len(as.Lhs)-1]); o != nil {
+								decodeErr[o] = true
+							}
+						case "asError":
+							if len(call.Args) == 1 && len(as.Lhs) == 2 {
+								if inner, ok := astx.Unparen(call.Args[0]).(*ast.CallExpr); ok {
+									if g := astx.CalleeFunc(info, inner); g != nil && g.Name() == "wrapIfContextError" && len(inner.Args) == 1 {
+										for d := range decodeErr {
+											if astx.Mentions(info, inner.Args[0], d) {
+												if o := astx.ObjOf(info, as.Lhs[0]); o != nil {
+													ctxOf[o] = true
+												}
+											}
+										}
+									}
+								}
+							}
+						}
+						return true
+					})
+				}
+				if ctxOf[obj] {
+					return
+				}
+				if decodeErr[obj] {
+					codeTest := false
+					for _, f := range s.Facts {
+						ast.Inspect(f.Expr, func(x ast.Node) bool {
+							if id, ok := x.(*ast.Ident); ok {
+								if cst, ok := info.Uses[id].(*types.Const); ok && (cst.Name() == "CodeCanceled" || cst.Name() == "CodeDeadlineExceeded") && cst.Pkg() == p.Connect.Types {
+									codeTest = true
+								}
+							}
+							return true
+						})
+					}
+					if codeTest {
+						return
+					}
+				}
+			}
+			probs = append(probs, "the error exit at "+at+" ("+types.ExprString(res)+") rejects the response for a reason that is neither its HTTP status, an unknown encoding, an error the peer sent nor the call's context ending while the body was read")
 		})
 		if trunc {
 			c.Undecided("exits/"+name, fd.Pos(), "path enumeration truncated")
